@@ -33,10 +33,19 @@ def c04(tier):
                      "preemption granularity = every shim operation (mutex, condvar, state-byte atomic) plus explicit points inside managed steps, natives and the operation body"])
 
 
-CHECKS = {"C12": c12, "C04": c04, "C03": props_b.c03, "C09": props_b.c09_tier_b, "C14": tier_c.c14, "C13": props_b.c13, "C15": tier_c.c15, "C18": tier_c.c18}
-REPLAY = {"C12": lambda path: tier_a.replay_tier_a("term", path),
+CHECKS = {"C12": props_b.c12, "C04": c04, "C03": props_b.c03, "C09": props_b.c09, "C14": tier_c.c14, "C13": props_b.c13, "C15": tier_c.c15, "C18": tier_c.c18}
+def replay_ab(harness):
+    def f(path):
+        obj = json.load(open(path))
+        if obj.get("tier") == "B":
+            return tier_b.replay_file(path)
+        return tier_a.replay_tier_a(harness, path)
+    return f
+
+
+REPLAY = {"C12": replay_ab("term"),
           "C04": lambda path: tier_a.replay_tier_a("stw", path),
-          "C03": tier_b.replay_file, "C09": tier_b.replay_file, "C14": tier_c.c14_replay, "C13": tier_b.replay_file}
+          "C03": tier_b.replay_file, "C09": replay_ab("waitq"), "C14": tier_c.c14_replay, "C13": tier_b.replay_file}
 
 
 def main(argv):
